@@ -88,10 +88,16 @@ def create_retry_strategy(
             return RetryDecision.no_retry()
 
         # Check if error is retryable based on error message
+        try:
+            error_message = str(error)
+        except Exception:  # noqa: BLE001
+            # a user exception class with a broken __str__: the step must still get its RETRY or
+            # FAIL record (same text as ErrorObject.from_exception records)
+            error_message = "<exception str() failed>"
         is_retryable_error_message: bool = any(
-            pattern.search(str(error))
+            pattern.search(error_message)
             if isinstance(pattern, re.Pattern)
-            else pattern in str(error)
+            else pattern in error_message
             for pattern in retryable_errors
         )
 
